@@ -126,3 +126,64 @@ func VxC03HistoryFollowsTheForkHeldNow() {
 		}
 	}
 }
+
+// C03-H7 (new backend, head reads after a contract's storage became EMPTY): "a read of the head state
+// answers the value after applying all stored blocks". The head read of the new backend fetches the leaf by
+// its path straight from the node store, so it depends on removed leaves really being removed. A contract
+// that stays deployed has all its storage emptied - by a block that writes its only slot(s) back to zero, or
+// by a revert of the block that gave it its first slot(s) -; the head read of every such slot is zero,
+// agrees with the history view of the head block, and the commitment is that of a node that never held the
+// values.
+func VxC03HeadReadAfterStorageBecameEmpty() {
+	vx.Bound("new backend; block 0 deploys contract A (optionally with one other contract holding storage); block 1 writes 1..2 slots of A (symbolic non-zero values); then block 2 writes them all back to zero, or block 1 is reverted; head reads and history reads of the slots")
+	vx.CollisionFree()
+	d := memory.New()
+	sdb := NewStateDB(d, triedb.New(d, nil))
+	a := felt.NewFromUint64[felt.Felt](0x1000)
+	other := felt.NewFromUint64[felt.Felt](0x3000)
+	slots := []*felt.Felt{felt.NewFromUint64[felt.Felt](0x20), felt.NewFromUint64[felt.Felt](0x21)}
+	d0 := core.EmptyStateDiff()
+	d0.DeployedContracts[*a] = felt.NewFromUint64[felt.Felt](0xC1)
+	if vx.Bool("another-contract-holds-storage") {
+		d0.DeployedContracts[*other] = felt.NewFromUint64[felt.Felt](0xC3)
+		d0.StorageDiffs[*other] = map[felt.Felt]*felt.Felt{*slots[0]: felt.NewFromUint64[felt.Felt](9)}
+	}
+	r0 := vxApplyOn(sdb, d, &felt.Zero, 0, &d0)
+	n := 1 + vx.Choice("slots-written", 2)
+	d1 := core.EmptyStateDiff()
+	d1.StorageDiffs[*a] = map[felt.Felt]*felt.Felt{}
+	for i := 0; i < n; i++ {
+		v := vxFeltIn("value")
+		vx.Assume(!v.IsZero())
+		d1.StorageDiffs[*a][*slots[i]] = v
+	}
+	r1 := vxApplyOn(sdb, d, &r0, 1, &d1)
+	head, headNum := r1, uint64(1)
+	if vx.Choice("emptied-by", 2) == 0 {
+		d2 := core.EmptyStateDiff()
+		d2.StorageDiffs[*a] = map[felt.Felt]*felt.Felt{}
+		for i := 0; i < n; i++ {
+			d2.StorageDiffs[*a][*slots[i]] = new(felt.Felt)
+		}
+		head, headNum = vxApplyOn(sdb, d, &r1, 2, &d2), 2
+		vx.Cover("emptied-by-a-block-writing-zero")
+		// the commitment does not remember the values: it is block 0's commitment with A's nonce/class unchanged
+		vx.Assert(head.Equal(&r0), "commitment-is-that-of-the-state-without-the-values")
+	} else {
+		vxRevertOn(sdb, d, &r1, &r0, 1, &d1)
+		head, headNum = r0, 0
+		vx.Cover("emptied-by-a-revert")
+	}
+	sr, err := NewStateReader(&head, sdb)
+	vx.Assert(err == nil, "reader-opens")
+	hv, herr := NewStateHistory(headNum, &head, sdb)
+	vx.Assert(herr == nil, "history-view-opens")
+	for i := 0; i < n; i++ {
+		got, e := sr.ContractStorage(a, slots[i])
+		vx.Assert(e == nil && got.IsZero(), "head-read-of-an-emptied-slot-is-zero")
+		if headNum > 0 {
+			hg, he := hv.ContractStorage(a, slots[i])
+			vx.Assert(he == nil && hg.Equal(&got), "head-read-agrees-with-the-history-view-of-the-head-block")
+		}
+	}
+}
